@@ -267,3 +267,10 @@ package git
 //@   modifies fresh, ghost lasttext[s.s]
 //@   at call strings.SplitN:2 assert arg0__ == str_before(lasttext(s.s), "\t") && arg1__ == " " && arg2__ == 4
 //@   ensures result0 != nil ==> result0.Filename == str_after(lasttext(s.s), "\t")
+
+// C14: the headers of a filter request are what Git sent: each "key=value"
+// packet is stored under exactly its key with exactly its value.
+//@ func (*FilterProcessScanner).readRequest
+//@   props C14
+//@   requires @inv o != nil && o.pl != nil
+//@   at store-map Header assert @C14 mapkey__ == str_before(pair, "=") && mapval__ == str_after(pair, "=")
